@@ -55,9 +55,7 @@ pub struct Program {
 
 pub const SENTINEL: u64 = 999_999;
 
-pub fn upd(v: u64, t: u64) -> u64 {
-    (v.wrapping_mul(31).wrapping_add(t)) % 1_000_003
-}
+pub use crate::lin::upd;
 
 /// xoshiro-free tiny PRNG for program generation (SplitMix64 stream).
 pub struct Gen(pub u64);
